@@ -88,11 +88,12 @@ def cluster(draw, cfg, rmax, dtabs, t, periodic, hash0, mass_lo=1e-6, rmin_dec=4
     L = cfg["L"]
     centre = []
     for ax in range(3):
-        kind = draw(st.sampled_from(["in", "in", "edge+", "edge-"] if periodic else ["in"]))
+        kind = draw(st.sampled_from(["in", "edge+", "edge-"] if periodic else ["in"]))
+        # (small fixed offsets keep the simple values Hypothesis prefers - 0, +-L/2 - off the root-box faces)
         if kind == "in":
-            centre.append(draw(S.floats(-0.4, 0.4)) * L[ax])
+            centre.append(draw(S.floats(-0.4, 0.4)) * L[ax] + 1.2345e-3 * (ax + 1) * cfg["L0"])
         else:
-            centre.append((0.5 if kind == "edge+" else -0.5) * L[ax] + draw(S.floats(-1.0, 1.0)) * rmax)
+            centre.append((0.5 if kind == "edge+" else -0.5) * L[ax] + (draw(S.floats(-1.0, 1.0)) + 0.0137 * (ax + 1)) * rmax)
     k = draw(st.integers(2, 5))
     chain = draw(st.booleans())
     vscale = draw(S.logfloats(1e-3, 30.0))
@@ -135,10 +136,10 @@ def twins(draw, cfg, rmax, dtabs, t, periodic, hash0):
     body hardly moves) that merge within their group first; the merged bodies (radii grown beyond anything that was
     ever added) then overlap while approaching each other."""
     L = cfg["L"]
-    centre = [draw(S.floats(-0.35, 0.35)) * L[ax] for ax in range(3)]
+    centre = [draw(S.floats(-0.35, 0.35)) * L[ax] + 1.2345e-3 * (ax + 1) * cfg["L0"] for ax in range(3)]
     if periodic and draw(st.booleans()):
         ax = draw(st.integers(0, 2))
-        centre[ax] = draw(st.sampled_from([0.5, -0.5])) * L[ax] + draw(S.floats(-1.0, 1.0)) * rmax
+        centre[ax] = draw(st.sampled_from([0.5, -0.5])) * L[ax] + (draw(S.floats(-1.0, 1.0)) + 0.0137) * rmax
     d = _unit(draw(S.floats(-1, 1)), draw(S.floats(-1, 1)), draw(S.floats(-1, 1)))
     ks = [draw(st.sampled_from([2, 3, 4, 4])), draw(st.sampled_from([2, 3, 4, 4]))]
     rad = [[rmax * draw(S.floats(0.85, 1.0)) for _ in range(k)] for k in ks]
@@ -381,6 +382,23 @@ def coll_idx(s):
 
 
 SFIELDS = ("x", "y", "z", "vx", "vy", "vz", "m", "r", "last_collision", "hash")
+
+
+def others_same(b, a, p1, p2):
+    """All rows except p1, p2 bit-identical in every member (also accelerations, cell pointer, hash).
+    (Field by field: the copies made by snapshot() do not carry the struct's padding bytes.)"""
+    import numpy as np
+    if len(a) != len(b):
+        return False
+    mask = np.ones(len(b), dtype=bool)
+    mask[[p1, p2]] = False
+    for f in b.dtype.names:
+        x, y = b[f][mask], a[f][mask]
+        if x.dtype.kind == "f":
+            x, y = x.view(np.uint64), y.view(np.uint64)
+        if not np.array_equal(x, y):
+            return False
+    return True
 
 
 def same_row(a, b, fields=SFIELDS):
@@ -750,8 +768,7 @@ def run_merge_hist(case, ctx):
             if ret not in (0, 1, 2):
                 raise Violation("merge resolver returned %d" % ret)
             was = b["last_collision"][p1] == t or b["last_collision"][p2] == t
-            others_same = all(same_row(b[i], a[i]) for i in range(len(b)) if i not in (p1, p2))
-            if not others_same:
+            if not others_same(b, a, p1, p2):
                 raise Violation("merge resolver changed a particle that is not part of the collision")
             if was:
                 if ret != 0 or not same_row(b[p1], a[p1]) or not same_row(b[p2], a[p2]):
@@ -924,7 +941,7 @@ def run_bounce(case, ctx):
         for p1, p2, gb, ret, b, a in calls:
             if ret != 0:
                 raise Violation("hard-sphere resolver asks to remove a particle (returned %d)" % ret)
-            if not all(same_row(b[i], a[i]) for i in range(len(b)) if i not in (p1, p2)):
+            if not others_same(b, a, p1, p2):
                 raise Violation("hard-sphere resolver changed a particle that is not part of the collision")
             m1, m2 = LD(b["m"][p1]), LD(b["m"][p2])
             d = np.array([LD(b[f][p1]) + LD(g) - LD(b[f][p2]) for f, g in zip("xyz", gb[:3])])
@@ -1033,10 +1050,10 @@ bounce_case = system(dust_max=150).flatmap(
 
 def subs(tier):
     return [
-        Sub("detect", skipping(run_detect), strategy=system(), quick=2000, thorough=48000, shards_quick=8, shards_thorough=16),
+        Sub("detect", skipping(run_detect), strategy=system(), quick=2000, thorough=48000, shards_quick=8, shards_thorough=16, timeout_quick=1500),
         Sub("remove_fixup", skipping(run_remove_fixup), strategy=fixup_case, quick=2000, thorough=40000, shards_quick=8,
-            shards_thorough=16),
+            shards_thorough=16, timeout_quick=1500),
         Sub("merge_hist", skipping(run_merge_hist), strategy=merge_case, quick=1400, thorough=32000, shards_quick=8,
-            shards_thorough=16),
-        Sub("bounce", skipping(run_bounce), strategy=bounce_case, quick=1200, thorough=24000, shards_quick=8, shards_thorough=16),
+            shards_thorough=16, timeout_quick=1500),
+        Sub("bounce", skipping(run_bounce), strategy=bounce_case, quick=1200, thorough=24000, shards_quick=8, shards_thorough=16, timeout_quick=1500),
     ]
